@@ -82,6 +82,8 @@ def opXHistory (a : Json) : Json :=
           .add ⟨strOf (parts.getD 1 .null), strOf (parts.getD 2 .null), natOf (parts.getD 3 .null), imageOfPy (toPy (parts.getD 4 .null))⟩
         else if kind == "dumps" then .dumps
         else if kind == "set_version" then .setVersion (toPy (parts.getD 1 .null))
+        else if kind == "discard" then .discard (strOf (parts.getD 1 .null)) (strOf (parts.getD 2 .null)) (natOf (parts.getD 3 .null))
+        else if kind == "del_variant" then .delVariant (strOf (parts.getD 1 .null))
         else .loads (toPy (parts.getD 1 .null)) (1000 * (k + 1))
       let r := hstep s hop
       let out := Json.mkObj [("res", resJson r.2), ("version", ofPy r.1.version), ("state", cellsToJson r.1.cells)]
